@@ -91,7 +91,10 @@ Definition step_ok (pre : state) (ob : obs) : bool :=
   match oop ob with OSort fi => out_eqb RUnit (oout ob) && sort_ok pre fi (oheap ob) | _ =>
   let '(s', o') := step pre (oop ob) in
   let n := length (sheap pre) in
-  let fresh := negb (Nat.eqb (length (sheap s')) n) in
+  (* a fresh allocation's capacity is the implementation's choice - except for frame.Values,
+     whose capacity is fixed by the columns it is given *)
+  let fresh := negb (Nat.eqb (length (sheap s')) n)
+               && match oop ob with OValues _ _ => false | _ => true end in
   out_sem_eqb fresh o' (oout ob)
   && heap_eqb (firstn n (sheap s')) (firstn n (oheap ob))
   && match frame_of_out o', frame_of_out (oout ob) with
